@@ -60,6 +60,15 @@ def configure(case, lk):
                 getattr(r, op[0])(op[1], op[2])
             else:
                 setattr(r, op[0], op[1])
+    pipes_first = case.get("order") == "pipes-first" and not lite_t and not lite_r
+    if pipes_first:
+        # the application opens its pipes (the receiver, being a transceiver, also a TX pipe) BEFORE it applies the link
+        # settings: the order of these legal calls must not matter
+        early = pipe_addresses(case)
+        for p in range(6):
+            rx.open_rx_pipe(p, early[p])
+        rx.open_tx_pipe(bytes([early[0][0] ^ 0x3C]) + early[0][1:4] + bytes([early[0][4] ^ 0x55]))
+        tx.open_tx_pipe(early[case["pipe"]])
     for r, lite in ((tx, lite_t), (rx, lite_r)):
         r.channel = case["ch"]
         r.data_rate = case["rate"]
@@ -96,11 +105,12 @@ def configure(case, lk):
         tx.ack = True
         rx.ack = True
     addrs = pipe_addresses(case)
-    for p in range(6):
-        rx.open_rx_pipe(p, addrs[p])
+    if not pipes_first:
+        for p in range(6):
+            rx.open_rx_pipe(p, addrs[p])
     rx.listen = True
-    tx.open_tx_pipe(addrs[case["pipe"]])
-    tx.listen = False
+    tx.open_tx_pipe(addrs[case["pipe"]])  # (again in the pipes-first order: auto-ack may have been switched on since, and
+    tx.listen = False                     # pipe 0 follows the TX address only at open_tx_pipe() time)
     return addrs
 
 
@@ -211,6 +221,7 @@ def run_case(case, prefix=None):
         tx.open_tx_pipe(addrs[case["pipe"]])  # documented: (re-)open the TX pipe after pipe 0 was given an RX address
     else:
         pp = None
+    late_pending = None  # (pipe, payload) of an answer the first radio has received but not read yet
     failed_pending = False  # a payload that failed while the peer was deaf may still sit in the TX FIFO
     for ci, call in enumerate(case["calls"]):
         objs, befores, exps = [], [], []
@@ -245,7 +256,12 @@ def run_case(case, prefix=None):
                 tx.update()
                 res.label("write()")
             else:
-                result = tx.send(arg, ask_no_ack=ana) if ana else tx.send(arg)
+                if late_pending is not None:
+                    # the answer to the previous call is still unread in this radio's RX FIFO: send_only=True is the
+                    # documented way to transmit without touching it
+                    result = tx.send(arg, ask_no_ack=ana, send_only=True)
+                else:
+                    result = tx.send(arg, ask_no_ack=ana) if ana else tx.send(arg)
         except ValueError as e:
             raised = e
         except SimHorizon:
@@ -350,6 +366,17 @@ def run_case(case, prefix=None):
             # the driver's cached status is stale after an exception: let the next call start clean
             tx.flush_tx()
             tx.clear_status_flags()
+        if late_pending is not None:
+            back = []
+            for _ in range(4):
+                if not tx.available():
+                    break
+                back.append((tx.pipe, None if (d := tx.read()) is None else bytes(d)))
+            if back != [late_pending]:
+                res.fail(P + "/unread-answer-lost", "the answer to the previous call was left in the RX FIFO and the next send() used send_only=True; "
+                         "afterwards the radio read %r, expected %r" % (back, [late_pending]))
+            res.label("answer-read-after-the-next-send")
+            late_pending = None
         if pp:
             res.label("pingpong")
             reply = unhex(pp["reply"])
@@ -367,6 +394,16 @@ def run_case(case, prefix=None):
                 res.fail(exc_signature(P + "/valid-payload-rejected", e), "reply of %d bytes: %r" % (len(reply), e))
                 break
             sim.advance(300 * US)
+            nxt = case["calls"][ci + 1] if ci + 1 < len(case["calls"]) else None
+            if pp.get("late") and nxt is not None and nxt["form"] != "write" and not nxt.get("deaf") and len(T.rxf) == 1:
+                late_pending = (pp["pipe"], exp_reply)
+                if case["aa"] and r2 is not True:
+                    res.fail(P + "/pingpong-reply-result", "answer delivered but send() returned %r" % (r2,))
+                rx.listen = True
+                tx.listen = False
+                tx.open_tx_pipe(addrs[pipe])
+                sim.advance(300 * US)
+                continue
             back = []
             for _ in range(4):
                 if not tx.available():
@@ -461,14 +498,17 @@ def strategy(drv="full", peer="full"):
         if aa and "dynmask" not in c and draw(st.integers(0, 4)) == 0:
             c["ackmode"] = True
             c["pipe"] = 0
+        if not lite and draw(st.integers(0, 3)) == 0:
+            c["order"] = "pipes-first"
         # (the reverse direction of a ping-pong would need the mirrored per-pipe modes: not combined)
-        if not lite and "perpipe" not in c and "dynmask" not in c and "ackmode" not in c and draw(st.integers(0, 1)) == 0:
+        if not lite and "perpipe" not in c and "dynmask" not in c and "ackmode" not in c and "order" not in c and draw(st.integers(0, 1)) == 0:
             ra = bytearray(draw(st.binary(min_size=5, max_size=5)))
             ra[1] = a1[1] ^ a0[1] ^ draw(st.integers(1, 255)) if (a1[1] ^ a0[1]) else a1[1] ^ 0x33
             if ra[1] in (a0[1], a1[1]):
                 ra[1] ^= 0x81
             n = draw(st.integers(1, 32))
-            c["pingpong"] = {"pipe": draw(st.integers(0, 5)), "addr": bytes(ra).hex(), "reply": draw(st.binary(min_size=n, max_size=n)).hex()}
+            c["pingpong"] = {"pipe": draw(st.integers(0, 5)), "addr": bytes(ra).hex(), "reply": draw(st.binary(min_size=n, max_size=n)).hex(),
+                             "late": draw(st.booleans())}
         return c
 
     return case()
